@@ -2365,7 +2365,10 @@ def _(ex, a):
 
 @pattern(r'^<.* as Iterator>::chain$')
 def _(ex, a):
-    return Agg('ChainIter', [a[0], a[1], 0])
+    other = a[1]
+    if isinstance(other, Agg) and other.kind in ('Vec', 'VecDeque', 'array'):
+        other = Agg('VecIntoIter', list(other.f))        # chain() takes any IntoIterator
+    return Agg('ChainIter', [a[0], other, 0])
 
 
 @pattern(r'^<.* as Iterator>::zip$')
@@ -3425,4 +3428,40 @@ def _(ex, a):
 @pattern(r'^<.*\{closure@.*\} as (Fn|FnMut|FnOnce)>::(call|call_mut|call_once)$')
 def _(ex, a):
     # a closure value called through the Fn* traits (`let f = |..| ..; f(x)`)
+    return ex.call_closure(a[0], a[1].f)
+
+
+@prim('String::pop')
+def _(ex, a):
+    s = ex.deref(a[0])
+    if not s.f:
+        return NONE()
+    t = s.f[-1]
+    if isinstance(t, str):
+        if len(t) > 1:
+            s.f[-1] = t[:-1]
+        else:
+            s.f.pop()
+        return Some(Agg('char', [t[-1]]))
+    if isinstance(t, tuple) and t[0] == 'val' and not is_sym(t[1]):
+        txt = str(t[1])
+        s.f.pop()
+        if len(txt) > 1:
+            s.f.append(txt[:-1])
+        return Some(Agg('char', [txt[-1]]))
+    raise Unsupported('String::pop on symbolic content')
+
+
+@pattern(r'^<.* as Iterator>::partition$')
+def _(ex, a):
+    yes, no = [], []
+    for it in drain(ex, a[0]):
+        (yes if as_bool(ex, ex.call_closure(a[1], [Ref(Cell(it))])) else no).append(it)
+    return Agg('tuple', [Agg('Vec', yes), Agg('Vec', no)])
+
+
+@prim('<F as FnMut>::call_mut', '<F as Fn>::call', '<F as FnOnce>::call_once', '<&mut F as FnMut>::call_mut',
+      '<&mut F as FnOnce>::call_once', '<&F as Fn>::call')
+def _(ex, a):
+    # a generic closure parameter `f: F` called inside the crate (e.g. an Iterator::fold override)
     return ex.call_closure(a[0], a[1].f)
